@@ -94,7 +94,11 @@ def run(check):
     check.assumptions = ["exit code for an invalid *input* file is not asserted (the CLI reports it as a failed run)"]
     items = []
     variants = [("abs", {"cache": "context"}), ("rel", {"cache": "context", "rel_dir": True, "chdir": "elsewhere/deep"}), ("subdir-ctx", {"cache": "context", "dir": "ctx", "chdir": "other"}),
-                ("memory", {"cache": "memory"}), ("rel-ctx-in-cwd", {"cache": "context", "dir": "ctx", "rel_dir": True})]
+                ("memory", {"cache": "memory"}), ("rel-ctx-in-cwd", {"cache": "context", "dir": "ctx", "rel_dir": True}),
+                # the working directory changes between building the file cache and parsing; in the second variant the same relative
+                # path below the new working directory holds a different tree (every plugin source renamed)
+                ("rel+chdir-before-parse", {"cache": "context", "dir": "ctx", "rel_dir": True, "chdir": "one/two", "chdir_before_parse": "three/x/y"}),
+                ("rel+chdir-before-parse+decoy", {"cache": "context", "dir": "ctx", "rel_dir": True, "chdir": "one/two", "chdir_before_parse": "p/q/r", "decoy": True})]
     metas = {}
     for i in range(n):
         rng = random.Random(derive_seed(check.seed, "c20", i))
@@ -102,9 +106,12 @@ def run(check):
         case, sem = runfam.build_case("c20-%04d-direct" % i, g)
         items.append(case)
         metas[case["id"]] = (g, sem, "direct", i)
-        vs = variants if not check.quick() else rng.sample(variants, 3)
+        vs = variants if not check.quick() else rng.sample(variants, 4)
         for vname, eng in vs:
             for rep in range(2 if vname == "abs" else 1):
+                eng = dict(eng)
+                if eng.get("decoy") is True:
+                    eng["decoy"] = {name: text.replace("src: ", "src: decoy_").replace('"src": "', '"src": "decoy_') for name, text in g["program"].files().items()}
                 c = {"id": "c20-%04d-%s-%d" % (i, vname, rep), "mode": "engine", "files": g["program"].files(), "scripts": g["scripts"], "runs": [{"input": g["input"]}],
                      "extra": {"engine": dict(eng)}}
                 items.append(c)
@@ -153,6 +160,20 @@ def run(check):
         if len(check.samples) < 3 and "depth=3" in g["shape"]:
             check.sample({"tree": i, "shape": g["shape"], "files": sorted(g["program"].files()), "variant": vname, "result": run.get("out_id"), "output_is_error": flag})
     for r in cli_results:
+        if r.get("expected_print") and r["exit"] == r["expected_exit"]:
+            import re
+            want_id, want_data = r["expected_print"]
+            m = re.search(r"^output_id: (\S+)\s*$", r["stdout"], re.M)
+            got_id = m.group(1).strip("'\"") if m else None
+            missing = []
+            for k, v in want_data.items():
+                mm = re.search(r"^\s+%s: (.+)$" % re.escape(k), r["stdout"], re.M)
+                if not mm or (v is not None and mm.group(1).strip().strip("'\"") != v):
+                    missing.append(k)
+            stats["cli_outputs_compared"] = stats.get("cli_outputs_compared", 0) + 1
+            if got_id != want_id or missing:
+                check.report("cli@printed-output:%s" % r["row"], "command line run (%s): printed output id %r (expected %r), data fields missing or different: %s; stdout: %r" % (
+                    r["row"], got_id, want_id, missing, r["stdout"][-300:]), r)
         if r["exit"] != r["expected_exit"]:
             check.report("cli@exit-code:%s" % r["row"], "command line run (%s): exit code %d, expected %d; stderr: %s" % (r["row"], r["exit"], r["expected_exit"], r["stderr"][-300:]), r)
         elif len(check.samples) < 5:
@@ -192,6 +213,8 @@ def run_cli(check, rn, stats):
     table = [("ok", prog.files(), {"a": {}}, '{"tag": "x"}', 0), ("error-output", prog.files(), {"a": {"exec": {"outcome": "error"}}}, '{"tag": "x"}', 2),
              ("failed-run", prog.files(), {"a": {"exec": {"outcome": "crash"}}}, '{"tag": "x"}', 3), ("invalid-workflow", {"workflow.yaml": "version: v0.2.0\nsteps: {}\n"}, {}, '{"tag": "x"}', 1),
              ("missing-workflow", {"other.yaml": "x"}, {}, '{"tag": "x"}', 1)]
+    # what the program must print for a run that produced an output: its id and data, as the engine API returns them
+    printed = {"ok": ("success", {"a": "a(x)"}), "error-output": ("error", {"why": None})}
     for row, files, scripts, inp, want in table:
         for cwd_kind in ("in-context", "elsewhere"):
             d = tempfile.mkdtemp(prefix="cli-", dir=work)
@@ -210,7 +233,7 @@ def run_cli(check, rn, stats):
                 cmd, cwd = [binp, "-context", ctx, "-config", "config.yaml", "-input", "input.yaml"], d
             try:
                 p = subprocess.run(cmd, cwd=cwd, env=env, capture_output=True, text=True, timeout=60)
-                rows.append({"row": row + "/" + cwd_kind, "exit": p.returncode, "expected_exit": want, "stdout": p.stdout[-400:], "stderr": p.stderr[-600:]})
+                rows.append({"row": row + "/" + cwd_kind, "exit": p.returncode, "expected_exit": want, "stdout": p.stdout[-400:], "stderr": p.stderr[-600:], "expected_print": printed.get(row)})
             except subprocess.TimeoutExpired:
                 rows.append({"row": row + "/" + cwd_kind, "exit": -1, "expected_exit": want, "stdout": "", "stderr": "timeout"})
             stats["cli_runs"] += 1
